@@ -785,54 +785,57 @@ func genSeed(t *rapid.T, label string) vh.B {
 	return vh.B(rapid.SliceOfN(rapid.Byte(), 1, 3).Draw(t, label))
 }
 
-func TestPropLib(t *testing.T) {
-	libProp.Rapid(t, func(t *rapid.T) LibCase {
-		c := LibCase{File: genFile(t, true), Peek: rapid.SampledFrom([]int{0, 0, 0, 1, 8, 64, 1 << 30}).Draw(t, "peek")}
-		if c.File.Trailer != "correct" {
-			return c
-		}
-		if rapid.IntRange(0, 3).Draw(t, "hashoff") == 0 {
-			c.HashOff = rapid.IntRange(1, 16).Draw(t, "off")
-		}
-		n := rapid.IntRange(1, 4).Draw(t, "steps")
-		for i := 0; i < n; i++ {
-			st := Step{Key: genSeed(t, "key")}
-			if i > 0 && rapid.IntRange(0, 2).Draw(t, "samekey") == 0 {
-				st.Key = append(vh.B{}, c.Steps[rapid.IntRange(0, i-1).Draw(t, "whichkey")].Key...)
-				st.Reuse = rapid.IntRange(0, 3).Draw(t, "reuse") > 0
-			}
-			switch k := rapid.IntRange(0, 19).Draw(t, "strategy"); {
-			case k < 9:
-				st.Strategy = "honest"
-			case k < 12:
-				st.Strategy = "honest-own"
-			case k < 15:
-				st.Strategy = "wrong-key"
-				st.Other = append(append(vh.B{}, st.Key...), rapid.Byte().Draw(t, "other"))
-			case k < 17:
-				st.Strategy = "corrupt-sig"
-				st.Flip = rapid.IntRange(0, 511).Draw(t, "flip")
-			case k < 18:
-				st.Strategy = "short-sig"
-			default:
-				st.Strategy = "sign-error"
-			}
-			if rapid.Bool().Draw(t, "has-extra") {
-				ne := rapid.IntRange(1, 3).Draw(t, "nextra")
-				seen := map[string]bool{pkAttr: true}
-				for j := 0; j < ne; j++ {
-					name := genName(t)
-					if seen[name] {
-						continue
-					}
-					seen[name] = true
-					st.Extra = append(st.Extra, Attr{Name: name, Len: rapid.SampledFrom([]int{0, 1, 23, 24, 255, 256, 32, 63, 64, 65, 127, 128, 129, 512, 513, 4096, 4097, 65536}).Draw(t, "vlen"), Tag: rapid.Uint64Range(0, 99).Draw(t, "vtag")})
-				}
-			}
-			c.Steps = append(c.Steps, st)
-		}
+func TestPropLib(t *testing.T) { libProp.Rapid(t, genPropLib) }
+
+// TestConcLib: batches of cases evaluated at the same time on separate goroutines (vh.Prop.Concurrent).
+func TestConcLib(t *testing.T) { libProp.Concurrent(t, genPropLib, 8, 3) }
+
+func genPropLib(t *rapid.T) LibCase {
+	c := LibCase{File: genFile(t, true), Peek: rapid.SampledFrom([]int{0, 0, 0, 1, 8, 64, 1 << 30}).Draw(t, "peek")}
+	if c.File.Trailer != "correct" {
 		return c
-	})
+	}
+	if rapid.IntRange(0, 3).Draw(t, "hashoff") == 0 {
+		c.HashOff = rapid.IntRange(1, 16).Draw(t, "off")
+	}
+	n := rapid.IntRange(1, 4).Draw(t, "steps")
+	for i := 0; i < n; i++ {
+		st := Step{Key: genSeed(t, "key")}
+		if i > 0 && rapid.IntRange(0, 2).Draw(t, "samekey") == 0 {
+			st.Key = append(vh.B{}, c.Steps[rapid.IntRange(0, i-1).Draw(t, "whichkey")].Key...)
+			st.Reuse = rapid.IntRange(0, 3).Draw(t, "reuse") > 0
+		}
+		switch k := rapid.IntRange(0, 19).Draw(t, "strategy"); {
+		case k < 9:
+			st.Strategy = "honest"
+		case k < 12:
+			st.Strategy = "honest-own"
+		case k < 15:
+			st.Strategy = "wrong-key"
+			st.Other = append(append(vh.B{}, st.Key...), rapid.Byte().Draw(t, "other"))
+		case k < 17:
+			st.Strategy = "corrupt-sig"
+			st.Flip = rapid.IntRange(0, 511).Draw(t, "flip")
+		case k < 18:
+			st.Strategy = "short-sig"
+		default:
+			st.Strategy = "sign-error"
+		}
+		if rapid.Bool().Draw(t, "has-extra") {
+			ne := rapid.IntRange(1, 3).Draw(t, "nextra")
+			seen := map[string]bool{pkAttr: true}
+			for j := 0; j < ne; j++ {
+				name := genName(t)
+				if seen[name] {
+					continue
+				}
+				seen[name] = true
+				st.Extra = append(st.Extra, Attr{Name: name, Len: rapid.SampledFrom([]int{0, 1, 23, 24, 255, 256, 32, 63, 64, 65, 127, 128, 129, 512, 513, 4096, 4097, 65536}).Draw(t, "vlen"), Tag: rapid.Uint64Range(0, 99).Draw(t, "vtag")})
+			}
+		}
+		c.Steps = append(c.Steps, st)
+	}
+	return c
 }
 
 // ---- sub-check cli ---------------------------------------------------------------------------
